@@ -1304,6 +1304,33 @@ func checkFreshPushedElement(r *Reporter, p *Prog, pkg, typ, method string) {
 			reused = pf.PosOf(cpt) + ": " + why
 		}
 	}
+	if nPush > 0 && reused != "" {
+		// the heap element is recycled, but the handle handed back is an object of its own, allocated
+		// by this call: a stale handle is then a different object from the element's new handle
+		// (whether the operations on a stale handle are inert is the business of the other rules)
+		nRet, allFresh := 0, true
+		for _, rpt := range pf.FindOwn(func(n ast.Node) bool { _, isRet := n.(*ast.ReturnStmt); return isRet }) {
+			rs, _ := pf.nodeAt(rpt).(*ast.ReturnStmt)
+			if rs == nil || len(rs.Results) == 0 {
+				continue
+			}
+			res := rs.Results[0]
+			if t := info.TypeOf(res); t == nil {
+				continue
+			} else if _, isPtr := t.Underlying().(*types.Pointer); !isPtr {
+				allFresh = false
+				continue
+			}
+			nRet++
+			if notFreshlyAllocated(pf, info, res, rpt) != "" {
+				allFresh = false
+			}
+		}
+		if nRet > 0 && allFresh {
+			r.Pass("handle/fresh-element", key, p.posStr(fd.Pos()), "the heap element may be recycled, but the handle handed back is allocated by this call on every path")
+			return
+		}
+	}
 	if nPush == 0 {
 		r.Fail("handle/fresh-element", key, p.posStr(fd.Pos()), "no heap.Push of the new element found (vacuous)")
 	} else if reused != "" {
